@@ -60,6 +60,10 @@ pub enum PState {
     /// get() is stuck in create: one permit is owed. The stuck call can be
     /// abandoned and the holder can return its object, in any order.
     Owed,
+    /// max_size 2 with one object checked out: the call under test has a slot
+    /// at once and an empty idle queue, so it creates; the holder can return
+    /// its object (which then sits idle) at any time during that create.
+    Shared,
 }
 
 #[derive(Clone, Debug)]
@@ -91,7 +95,7 @@ fn c10(w: &mut World, key: &str, msg: String) {
 }
 
 async fn run_inner(sc: &TimeScenario) -> Outcome {
-    let mut cfg = PoolCfg::simple(if sc.state == PState::Owed { 2 } else { 1 });
+    let mut cfg = PoolCfg::simple(if matches!(sc.state, PState::Owed | PState::Shared) { 2 } else { 1 });
     cfg.create_menu = vec![Out::Ok, Out::Err, Out::PendOk, Out::Never];
     cfg.recycle_menu = vec![Out::Ok, Out::Err, Out::PendOk, Out::Never];
     cfg.auto_gates = false;
@@ -150,7 +154,7 @@ async fn run_inner(sc: &TimeScenario) -> Outcome {
     });
     let nb = Timeouts { wait: Some(Duration::ZERO), create: None, recycle: None };
     let mut holder: Option<usize> = None;
-    if matches!(sc.state, PState::Idle | PState::Exhausted | PState::Owed) {
+    if matches!(sc.state, PState::Idle | PState::Exhausted | PState::Owed | PState::Shared) {
         let gi = w(|w| w.begin_get(PROBE, true));
         let p = pool.clone();
         let mut t = Task::new(async move { p.timeout_get(&nb).await });
@@ -206,7 +210,7 @@ async fn run_inner(sc: &TimeScenario) -> Outcome {
         }
     });
     let mut now: u64 = 0;
-    let mut slot_free_at: Option<u64> = if matches!(sc.state, PState::Empty | PState::Idle) { Some(0) } else { None };
+    let mut slot_free_at: Option<u64> = if matches!(sc.state, PState::Empty | PState::Idle | PState::Shared) { Some(0) } else { None };
     let mut deadline_passed_at: Option<u64> = None;
     let mut result: Option<Result<usize, String>> = None;
     let mut done_at: Option<u64> = None;
@@ -417,6 +421,16 @@ async fn run_inner(sc: &TimeScenario) -> Outcome {
             }
             if no_rt && eff.1.nonzero() && env.iter().any(|e| e.site == Site::Create) {
                 c10(w, "no-runtime-create-ignored", "create timeout without runtime was silently ignored".into());
+            }
+            // "a create timeout yields Timeout(Create)": a call whose
+            // Manager::create never finished cannot end with an object
+            if let (Some(_), false) = (eff.1.ms(), no_rt) {
+                if let Some(c) = env.iter().rev().find(|c| c.site == Site::Create) {
+                    let finished = (c.gate.is_none() && c.completed) || c.fired_at.is_some();
+                    if !finished {
+                        c10(w, "create-timeout-swallowed", format!("get() returned object {} at t={}ms although its Manager::create call (started t={}ms, create timeout {:?}) never finished", id, tc, c.start, eff.1));
+                    }
+                }
             }
             if let Some(d) = wait_deadline {
                 if !slot_in_time && slot_free_at.map(|t| t > d).unwrap_or(true) && tc > d && !env_started {
